@@ -916,3 +916,185 @@ def check_rprim(ctx, prog):
                     ctx.ob("R-PRIM", "NFA::%s stores its `next` argument as the target" % meth, stored,
                            key="R-PRIM:%s:next" % meth, where=b["span"])
     ctx.floor("NFA builder and accessor methods checked for field agreement", n, 13)
+
+
+# --------------------------------------------------------------------------- subset construction pairing
+def _calls(sym):
+    out = []
+    for bi, bb in enumerate(sym.blocks):
+        if bb["cleanup"]:
+            continue
+        t = bb["term"]
+        if t["k"] == "call":
+            c = norm_path(t.get("resp") or t["f"].get("path")) or "?"
+            out.append((bi, c, tuple(sym.operand(a) for a in t["args"])))
+    return out
+
+
+def _is_call(t, suffix):
+    return isinstance(t, tuple) and len(t) == 4 and t[0] == "call" and t[1].endswith(suffix)
+
+
+def closure_of(term):
+    """X if term is collect(into_iter(compute_state_closure(nfa, X))) (any iterator plumbing between
+    the closure and the collected set is accepted), else None."""
+    found = []
+
+    def walk(t):
+        if _is_call(t, "NFA::compute_state_closure"):
+            found.append(t)
+            return
+        if isinstance(t, tuple) and len(t) == 4 and t[0] == "call":
+            for a in t[3]:
+                walk(a)
+    walk(term)
+    if len(found) == 1 and found[0][3][0] == ("param", "nfa"):
+        return found[0][3][1]
+    return None
+
+
+def check_rsubset(ctx, prog):
+    """nfa_to_dfa: every DFA transition is added from the DFA state of the popped set, to the DFA state
+    registered for the epsilon-closure of the collected targets, and that same closure is queued for
+    processing; labels and target sets come from the same item."""
+    lex = prog.crate(LEX)
+    b = lex.body("nfa_to_dfa::nfa_to_dfa")
+    if not ctx.ob("R-SUBSET", "nfa_to_dfa found", b is not None, key="R-SUBSET:anchor"):
+        return
+    sym = Sym(b, {1: "nfa"})
+    calls = _calls(sym)
+    where = b["span"]
+    pops = [x for x in calls if x[1] == "std::vec::Vec::pop"]
+    if not ctx.ob("R-SUBSET", "one work list is popped", len(pops) == 1, key="R-SUBSET:pop", where=where):
+        return
+    W = pops[0][2][0]
+    popped = None
+    # the popped set: `(pop(W) as Some).0`
+    acc = [x for x in calls if x[1].endswith("DFA::make_state_accepting")]
+    if not ctx.ob("R-SUBSET", "make_state_accepting is called once", len(acc) == 1, key="R-SUBSET:acc", where=where):
+        return
+    dfa, cur = acc[0][2][0], acc[0][2][1]
+
+    def from_pop(t):
+        return contains(t, lambda x: _is_call(x, "Vec::pop") and x[3][0] == W)
+    # current DFA state: looked up in the state map under the popped set, or created and registered
+    alts = list(cur[1]) if cur[0] == "phi" else [cur]
+    looked = [a for a in alts if contains(a, lambda x: _is_call(x, "HashMap::get") and from_pop(x[3][1]))]
+    created = [a for a in alts if _is_call(a, "DFA::new_state")]
+    ctx.ob("R-SUBSET", "the state being filled in is the one the state map holds for the popped set, or a new "
+           "state", len(looked) >= 1 and len(looked) + len(created) == len(alts), key="R-SUBSET:current",
+           where=where, detail=show(cur))
+    state_map = None
+    for a in looked:
+        def grab(x):
+            nonlocal state_map
+            if _is_call(x, "HashMap::get") and from_pop(x[3][1]):
+                state_map = x[3][0]
+            return False
+        contains(a, grab)
+    for a in created:
+        reg = [x for x in calls if x[1].endswith("HashMap::insert") and x[2][0] == state_map
+               and from_pop(x[2][1]) and x[2][2] == a]
+        # not an obligation: an unregistered state only duplicates work (and today the `None` arm is
+        # unreachable: every queued set is registered before it is pushed)
+        ctx.count("R-SUBSET: states created for a popped set and registered under it", len(reg))
+    acc_val = acc[0][2][2]
+    ctx.ob("R-SUBSET", "the accepting value comes from NFA::get_accepting_state of a member of the popped set",
+           contains(acc_val, lambda x: _is_call(x, "NFA::get_accepting_state") and x[3][0] == ("param", "nfa")
+                    and from_pop(x[3][1])), key="R-SUBSET:accepting", where=where, detail=show(acc_val))
+    pushes_W = [x[2][1] for x in calls if x[1] == "std::vec::Vec::push" and x[2][0] == W]
+
+    def check_target(kind, tgt, detail_where):
+        ok_map = _is_call(tgt, "nfa_to_dfa::dfa_state_of_nfa_states") and tgt[3][0] == dfa and tgt[3][1] == state_map
+        ctx.ob("R-SUBSET", "%s: the target is the DFA state registered (or created) for a set of NFA states in "
+               "the same state map" % kind, ok_map, key="R-SUBSET:%s:target" % kind, where=where, detail=show(tgt))
+        if not ok_map:
+            return None
+        key_set = tgt[3][2]
+        C = key_set[3][0] if _is_call(key_set, "Clone>::clone") or _is_call(key_set, "::clone") else key_set
+        X = closure_of(C)
+        ctx.ob("R-SUBSET", "%s: that set is the empty-transition closure (compute_state_closure) of the collected "
+               "targets" % kind, X is not None, key="R-SUBSET:%s:closure" % kind, where=where, detail=show(C))
+        ctx.ob("R-SUBSET", "%s: the same closure is pushed on the work list, so the target state gets its own "
+               "transitions and accepting value" % kind, C in pushes_W, key="R-SUBSET:%s:queued" % kind,
+               where=where, detail={"closure": show(C), "pushed": [show(p)[:120] for p in pushes_W]})
+        return X
+
+    n_sites = 0
+    for meth, kind in (("add_char_transition", "char"), ("set_any_transition", "any"),
+                       ("set_end_of_input_transition", "end-of-input")):
+        sites = [x for x in calls if x[1].endswith("DFA::" + meth)]
+        ctx.ob("R-SUBSET", "%s transitions are added at one place" % kind, len(sites) == 1,
+               key="R-SUBSET:%s:sites" % kind, where=where)
+        for bi, c, a in sites:
+            n_sites += 1
+            ctx.ob("R-SUBSET", "%s: the transition leaves the state being filled in" % kind,
+                   a[0] == dfa and a[1] == cur, key="R-SUBSET:%s:source" % kind, where=where, detail=show(a[1]))
+            X = check_target(kind, a[-1], bi)
+            if kind == "char" and X is not None:
+                label = a[2]
+                ok = label[0] == "path" and X[0] == "path" and label[1] == X[1] and \
+                    label[2][:-1] == X[2][:-1] and label[2][-1] == ("f", 0) and X[2][-1] == ("f", 1)
+                ctx.ob("R-SUBSET", "char: the label and the target set are the key and the value of the same "
+                       "entry of the collected character transitions", ok, key="R-SUBSET:char:item", where=where,
+                       detail=[show(label), show(X)])
+    # ranges: Range { start, end, value } pushed to a vector handed to set_range_transitions
+    srt = [x for x in calls if x[1].endswith("DFA::set_range_transitions")]
+    ctx.ob("R-SUBSET", "range transitions are set at one place", len(srt) == 1, key="R-SUBSET:range:sites", where=where)
+    for bi, c, a in srt:
+        n_sites += 1
+        ctx.ob("R-SUBSET", "range: the transitions are set on the state being filled in", a[0] == dfa and a[1] == cur,
+               key="R-SUBSET:range:source", where=where)
+        m = a[2]
+        ok_ctor = _is_call(m, "RangeMap::from_non_overlapping_sorted_ranges")
+        ctx.ob("R-SUBSET", "range: the map is built from the vector of ranges collected in the loop", ok_ctor,
+               key="R-SUBSET:range:ctor", where=where, detail=show(m)[:200])
+        if not ok_ctor:
+            continue
+        V = m[3][0]
+        items = [x[2][1] for x in calls if x[1] == "std::vec::Vec::push" and x[2][0] == V]
+        ctx.ob("R-SUBSET", "range: ranges are pushed to that vector at one place", len(items) == 1,
+               key="R-SUBSET:range:push", where=where)
+        for it in items:
+            ok_agg = it[0] == "agg" and "range_map::Range" in it[1] and len(it[2]) == 3
+            ctx.ob("R-SUBSET", "range: a Range { start, end, value } is pushed", ok_agg, key="R-SUBSET:range:agg",
+                   where=where)
+            if not ok_agg:
+                continue
+            start, end, value = it[2]
+            X = check_target("range", value, bi)
+            clamp = []
+            contains(start, lambda x: clamp.append(x) if _is_call(x, "nfa_to_dfa::clamp_to_chars") else False)
+            ok = False
+            if clamp and X is not None:
+                cl = clamp[0]
+                s_in, e_in = cl[3]
+                same_item = s_in[0] == "path" and e_in[0] == "path" and X[0] == "path" and \
+                    s_in[1] == e_in[1] == X[1] and s_in[2][:-1] == e_in[2][:-1] == X[2][:-1]
+                fields = (s_in[2][-1], e_in[2][-1], X[2][-1]) == (("f", 0), ("f", 1), ("f", 2)) if same_item else False
+                outs = start[0] == "path" and end[0] == "path" and start[2][-1] == ("f", 0) and end[2][-1] == ("f", 1) \
+                    and contains(end, lambda x: x == cl)
+                ok = same_item and fields and outs
+            ctx.ob("R-SUBSET", "range: start, end (clamped to scalar values, in that order) and the target set come "
+                   "from the same collected range", ok, key="R-SUBSET:range:item", where=where,
+                   detail=[show(start)[:160], show(end)[:160], show(X)[:160] if X else None])
+    ctx.floor("places in nfa_to_dfa where DFA transitions are added", n_sites, 4)
+    # the helper: registered state or a new one that is registered
+    h = lex.body("nfa_to_dfa::dfa_state_of_nfa_states")
+    if ctx.ob("R-SUBSET", "dfa_state_of_nfa_states found", h is not None, key="R-SUBSET:helper:anchor"):
+        hs = Sym(h, {1: "dfa", 2: "state_map", 3: "states"})
+        hc = _calls(hs)
+        ent = [x for x in hc if x[1].endswith("HashMap::entry")]
+        ok = len(ent) == 1 and ent[0][2][0] == ("param", "state_map") and ent[0][2][1] == ("param", "states")
+        ctx.ob("R-SUBSET", "dfa_state_of_nfa_states looks the given set up in the given map", ok,
+               key="R-SUBSET:helper:lookup", where=h["span"])
+        ins = [x for x in hc if x[1].endswith("VacantEntry::insert")]
+        ok = len(ins) == 1 and _is_call(ins[0][2][1], "DFA::new_state") and ins[0][2][1][3][0] == ("param", "dfa")
+        ctx.ob("R-SUBSET", "dfa_state_of_nfa_states registers a new state of the same DFA when the set is unknown",
+               ok, key="R-SUBSET:helper:insert", where=h["span"])
+        ret = hs.local(0)
+        alts = list(ret[1]) if ret[0] == "phi" else [ret]
+        ok = len(alts) == 2 and any(_is_call(x, "DFA::new_state") for x in alts) and \
+            any(contains(x, lambda y: _is_call(y, "OccupiedEntry::get")) for x in alts)
+        ctx.ob("R-SUBSET", "dfa_state_of_nfa_states returns the registered state or the new one", ok,
+               key="R-SUBSET:helper:result", where=h["span"], detail=show(ret))
